@@ -122,9 +122,9 @@ func c05Sends(c *Ctx, p *Prog) {
 						}
 						tn := typeName(sent.Type())
 						// the terminfo and console screens may drop a resize notification (the next
-					// resize() sees the size anyway); the simulation, whose SetSize promises the
-					// event, and every other sender may not
-					okLossy := (tn == "*tcell.EventResize" && (short == "(*tScreen).resize" || short == "(*cScreen).resize")) || (short == "(*baseScreen).PostEvent")
+						// resize() sees the size anyway); the simulation, whose SetSize promises the
+						// event, and every other sender may not
+						okLossy := (tn == "*tcell.EventResize" && (short == "(*tScreen).resize" || short == "(*cScreen).resize")) || (short == "(*baseScreen).PostEvent")
 						c.Check(okLossy, "C05-R1", key+":lossy", p.pos(in.Pos()), "non-blocking send of "+tn+" (drops when the queue is full)")
 						continue
 					}
